@@ -170,23 +170,35 @@ class FuncView:
                     meth = fm[2] if fm else None
             if meth is None:
                 return out
-            for st in meth.body:
-                if isinstance(st, ast.Expr) and isinstance(st.value, ast.Constant):
-                    continue
-                if isinstance(st, ast.Expr) and isinstance(st.value, ast.Call) and is_logging_call(st.value):
-                    continue
-                if isinstance(st, ast.If) and not st.orelse and len(st.body) == 1 and isinstance(st.body[0], ast.Raise):
-                    for (text, pol) in norm.cond_facts(st.test, False):
-                        if text.startswith('self.') or ' self.' in text:
-                            out.append((text, pol))
-                    continue
-                break
-            return out
+            return callee_post(fv.tree, meth._rel, meth._qual)
         return gens
 
     def has(self, astnode, text, pol, avoid=()):
         facts = self.facts(astnode, avoid)
         return facts is not None and (text, pol) in facts
+
+    def exit_facts(self):
+        ''' [(node, label, facts)] for every normal (non-raising) way out of the function: facts that hold on that way
+        out (return statements, and falling off the end through the last statement or a branch edge). '''
+        key = ()
+        if key not in self._facts:
+            self._facts[key] = _facts(self.cfg, self._kill_fn(), (), self._gen_fn())
+        facts, unreached = self._facts[key]
+        out = []
+        for (pred, label) in self.cfg.exit.pred:
+            if pred.idx in unreached or label == 'exc':
+                continue
+            have = set(facts[pred])
+            if pred.kind == 'cond' and label in (True, False) and not isinstance(pred.owner, (ast.For, ast.With)):
+                have |= set(norm.cond_facts(pred.ast, label))
+            elif pred.kind == 'stmt' and pred.ast is not None:
+                written = set(norm.written_names(pred.ast, pred.kind))
+                kills = self._kill_fn()
+                if kills:
+                    written |= set(kills(pred.ast))
+                have = {f for f in have if not norm.mentions(f[0], written)}
+            out.append((pred, label, frozenset(have)))
+        return out
 
     def holds_any(self, astnode, alts, avoid=()):
         facts = self.facts(astnode, avoid)
@@ -245,6 +257,30 @@ class FuncView:
                 return node
 
         return Sub().visit(_core.clone(expr))
+
+
+def callee_post(tree, rel, qual):
+    ''' Post-conditions of a repo method: facts about self attributes that hold on every normal way out of it
+    (e.g. after "if not self._in_sess: raise" - in whatever shape that guard is written - self._in_sess is true).
+    Cached on the tree; a method on the stack of this computation contributes nothing (recursion). '''
+    cache = tree.__dict__.setdefault('_post_cache', {})
+    key = (rel, qual)
+    if key in cache:
+        return cache[key] or []
+    cache[key] = None  # in progress
+    res = []
+    try:
+        fv = FuncView(tree, rel, qual)
+        exits = fv.exit_facts()
+        if exits:
+            common = set(exits[0][2])
+            for (_n, _l, f) in exits[1:]:
+                common &= set(f)
+            res = sorted((t, p) for (t, p) in common if t.startswith('self.') or ' self.' in t)
+    except AnalysisError:
+        res = []
+    cache[key] = res
+    return res
 
 
 def _facts(cfg, kills, avoid, gens=None):
